@@ -515,8 +515,10 @@ func (c *diskCache) availableOrTryProxy(kind cache.EntryKind, hash string, size 
 					_ = f.Close()
 
 					verifYield("get.remove")
+					// The lock was released since listElem was looked up, so
+					// another request might have removed or replaced it already.
 					c.mu.Lock()
-					c.lru.RemoveElement(listElem)
+					c.lru.RemoveElementIfUnchanged(key, listElem, item)
 					c.mu.Unlock()
 				} else {
 					return rc, item.size, false, nil
